@@ -12,7 +12,9 @@ MONITORS = {"un_camel": ("m_uncamel", uc_inputs)}
 
 
 def run(ctx):
-    ctx.pyvc([un_camel], MONITORS)
+    from contracts import generate_suffix
+    MONITORS[generate_suffix.suffix_step.name] = ("m_names", lambda v: None, lambda nm: {"skip_known": True}, 1500)
+    ctx.pyvc([un_camel, generate_suffix.suffix_step], MONITORS)
     # bounded stand-in for the global uniqueness claim (never counted as proved)
     n = 1500 if ctx.tier == "quick" else 30000
     r = ctx.monitor("m_names", "search", n, ctx.seed, json.dumps({"skip_known": True}))
@@ -48,8 +50,9 @@ def run(ctx):
     ctx.trusted += ["pyvc, z3/cvc5; per-character case functions axiomatised for ASCII (precondition: ASCII identifier)",
                     "folds DU / LOW / NOUP instantiated at program points; JOINPRE frame lemma for ''.join(list)"]
     ctx.not_covered += [
-        "global uniqueness over overloads x defaults x templates x generics (define_function_suffix and its helpers clone "
-        "FunctionNodes and mutate Scopes): bounded monitor only",
+        "global uniqueness over overloads x defaults x templates x generics: only the numbering step of "
+        "define_function_suffix is under contract (position in the overload set -> suffix); which functions form a set, the "
+        "clones made for default arguments / templates / generics and the name templates: bounded monitors only",
         "name templates (AstNode.eval_template / Namify), dump_generic_interfaces, Python/Lua method tables",
     ]
     return ctx.finish()
